@@ -20,6 +20,7 @@ func init() {
 			sc("climb-100", "size=100,keys=3,costs=1/40,alpha=set/get/del/climb,depth=4,targets=100/99/50/10/5/2/1", 2, 60),
 			sc("ttl-4", "size=4,keys=3,costs=1,ttls=0/1/2/3/4/5,depth=3,targets=4/3/1", 4, 60),
 			sc("ttl-4-aged", "size=4,keys=3,costs=1,ttls=0/1/2/3/4/5,depth=3,targets=4/3/1,age=259200", 4, 60),
+			sc("ttl-4-old-loader", "size=4,keys=3,costs=1,ttls=0/1/2/3,depth=2,targets=4,lage=300", 2, 60),
 			sc("shrunk-hot", "size=1000,keys=2,costs=1,alpha=get,prefix=200,shrink=100,heat=15,depth=1,targets=1000/500", 1, 60),
 			sc("grown-cold-protected", "size=1000,keys=2,costs=1,alpha=get,prefix=40,hot=10,grow=100,depth=1,targets=1000/500", 1, 60),
 			sc("nonquiescent-save", "size=4,keys=3,costs=1/2,alpha=set/get/setmap,depth=4,targets=4/3", 2, 60),
@@ -49,6 +50,7 @@ func init() {
 			sc("climb-200", "size=200,keys=3,costs=1/158,alpha=set/get/del/climb,depth=6,targets=200/199/100/2/1", 4, 600),
 			sc("ttl-4", "size=4,keys=3,costs=1,ttls=0/1/2/3/4/5,depth=4", 8, 600),
 			sc("ttl-4-aged", "size=4,keys=3,costs=1,ttls=0/1/2/3/4/5,depth=4,age=259200", 8, 600),
+			sc("ttl-4-old-loader", "size=4,keys=3,costs=1,ttls=0/1/2/3/4/5,depth=3,targets=4/3,lage=300", 8, 600),
 			sc("ttl-10-costs", "size=10,keys=3,costs=1/4,ttls=0/1/3/5,depth=3,age=7200,targets=10/7/4/2/1", 4, 600),
 			sc("shrunk-hot", "size=1000,keys=3,costs=1,alpha=get/set/del,prefix=200,shrink=100,heat=15,depth=2,targets=1000/500/100", 2, 600),
 			sc("shrunk-hot-300", "size=1000,keys=2,costs=1,alpha=get,prefix=300,shrink=30,heat=15,depth=1,targets=1000", 1, 600),
